@@ -55,6 +55,40 @@ where
     }
 }
 
+/// As the STARK verifier does it: the query positions are drawn from the verifier's OWN coin,
+/// after `FriVerifier::new` has absorbed the commitments it was given (with the prover's nonce).
+/// When they differ from the positions the prover opened, the verifier asks for its own
+/// positions (claimed evaluations = the function there); the proof then answers other questions.
+pub fn real_verify_own_positions<B, E, H>(cfg: &FriCfg, proof: FriProof, commitments: Vec<H::Digest>, f0: &[E], claimed: &[E], prover_positions: &[usize], max_degree: usize, nonce: u64) -> (FriVerdict, Vec<usize>)
+where
+    B: StarkField,
+    E: FieldElement<BaseField = B>,
+    H: ElementHasher<BaseField = B>,
+{
+    let mut vpos: Vec<usize> = vec![];
+    let r = guard(|| {
+        let mut channel = match DefaultVerifierChannel::<E, H>::new(proof, commitments, cfg.domain(), cfg.folding) {
+            Ok(c) => c,
+            Err(e) => return Err(format!("parse:{}", variant_name(&format!("{:?}", e)))),
+        };
+        let mut coin = DefaultRandomCoin::<H>::new(&[]);
+        let verifier = FriVerifier::new(&mut channel, &mut coin, cfg.options(), max_degree).map_err(|e| variant_name(&format!("{:?}", e)))?;
+        vpos = coin.draw_integers(cfg.num_queries, cfg.domain(), nonce).map_err(|e| variant_name(&format!("{:?}", e)))?;
+        if vpos == prover_positions {
+            verifier.verify(&mut channel, claimed, &vpos).map_err(|e| variant_name(&format!("{:?}", e)))
+        } else {
+            let own: Vec<E> = vpos.iter().map(|&p| f0[p]).collect();
+            verifier.verify(&mut channel, &own, &vpos).map_err(|e| variant_name(&format!("{:?}", e)))
+        }
+    });
+    let v = match r {
+        Ok(Ok(())) => FriVerdict::Accept,
+        Ok(Err(e)) => FriVerdict::Reject(e),
+        Err(p) => FriVerdict::Panic(p),
+    };
+    (v, vpos)
+}
+
 pub fn gen_fri_cfg(ch: &mut Chooser, max_log_domain: u32) -> FriCfg {
     loop {
         let blowup = [2usize, 4, 8, 16, 32, 64, 128][ch.weighted("fri.blowup", &[5, 5, 4, 2, 1, 1, 1])];
@@ -175,14 +209,15 @@ fn byzantine<B: SimField, E: FieldElement<BaseField = B>, H: ElementHasher<BaseF
     let layers = cfg.layers();
     // (an over-long remainder must still fit the u16 length prefix of the wire form)
     let s5_ok = domain * E::ELEMENT_BYTES < 60_000;
-    let strategy = match ch.weighted("strategy", &[5, 3, if layers > 0 { 3 } else { 0 }, if layers > 0 { 2 } else { 0 }, if layers > 0 { 2 } else { 0 }, if s5_ok { 3 } else { 0 }, 2]) {
+    let strategy = match ch.weighted("strategy", &[5, 3, if layers > 0 { 3 } else { 0 }, if layers > 0 { 2 } else { 0 }, if layers > 0 { 2 } else { 0 }, if s5_ok { 3 } else { 0 }, 2, 2]) {
         0 => Strategy::Honest,
         1 => Strategy::S1AdaptiveRemainder,
         2 => Strategy::S2TamperValue { layer: ch.index("s2.layer", layers), index: ch.index("s2.index", domain) },
         3 => Strategy::S3WrongAlpha { layer: ch.index("s3.layer", layers) },
         4 => Strategy::S4SwapCommitments { a: ch.index("s4.a", layers) },
         5 => Strategy::S5LongRemainder,
-        _ => Strategy::S6WrongRemainderCommitment,
+        6 => Strategy::S6WrongRemainderCommitment,
+        _ => Strategy::S8ExtraCommitment,
     };
     ctx.event_with("setup", simcore::rng::fnv1a(format!("{:?}{:?}{fdesc}", cfg, strategy).as_bytes()), || {
         format!("{:?} ({} layers, remainder size {}), {fdesc}, strategy {:?}", cfg, layers, cfg.remainder_size(), strategy)
@@ -195,6 +230,7 @@ fn byzantine<B: SimField, E: FieldElement<BaseField = B>, H: ElementHasher<BaseF
         Strategy::S4SwapCommitments { .. } => "byzantine_swapped_commitments",
         Strategy::S5LongRemainder => "byzantine_long_remainder",
         Strategy::S6WrongRemainderCommitment => "byzantine_wrong_remainder_commitment",
+        Strategy::S8ExtraCommitment => "byzantine_extra_commitment_after_queries",
     });
     // the adversary may grind the nonce (commitments do not depend on it): for the tampering
     // strategy look for a nonce under which the tampered value is actually queried, preferably as
@@ -261,13 +297,64 @@ fn byzantine<B: SimField, E: FieldElement<BaseField = B>, H: ElementHasher<BaseF
         ctx.fault("byzantine_wrong_claimed_evaluation");
         ctx.probe(if later.is_empty() { "wrong_claim_at_a_first_of_row_position" } else { "wrong_claim_at_a_non_first_of_row_position" });
     }
+    let sname0 = format!("{:?}", strategy).split(|c: char| !c.is_alphanumeric()).next().unwrap_or("").to_string();
     let reference = reference_verdict::<B, E, H>(&cfg, &built, &claimed, max_degree);
-    let real = real_verify::<B, E, H>(&cfg, built.proof.clone(), built.commitments.clone(), &claimed, &built.positions, max_degree);
+    let (real, vpos) = real_verify_own_positions::<B, E, H>(&cfg, built.proof.clone(), built.commitments.clone(), &f0, &claimed, &built.positions, max_degree, built.nonce);
+    // Do the verifier's own positions ask for the same rows as the ones the prover opened? (The
+    // first folding maps a position to its coset row; with no layers the positions themselves
+    // count.) A prover that could not know the positions - because they depend on a commitment it
+    // chose afterwards - still meets them by chance on small domains: that is the protocol's
+    // soundness error, not a defect, and is counted, not asserted.
+    let row = |p: usize| if layers > 0 { p % (domain / cfg.folding) } else { p };
+    let mut rows_v: Vec<usize> = vpos.iter().map(|&p| row(p)).collect();
+    let mut rows_p: Vec<usize> = built.positions.iter().map(|&p| row(p)).collect();
+    rows_v.sort_unstable();
+    rows_v.dedup();
+    rows_p.sort_unstable();
+    rows_p.dedup();
+    let same_rows = rows_v == rows_p;
+    if vpos != built.positions {
+        ctx.probe(if same_rows { "verifier_positions_differ_same_rows_by_chance" } else { "verifier_positions_differ_from_the_prover_s" });
+        if strategy != Strategy::S8ExtraCommitment && !matches!(strategy, Strategy::S4SwapCommitments { .. }) && !vpos.is_empty() {
+            ctx.violation(
+                format!("C05/verifier-positions-differ {sname0}"),
+                format!("the verifier's coin, after absorbing the commitments it was given, draws other positions than the prover's coin after the same commitments; {:?}", cfg),
+            );
+            return;
+        }
+    }
     ctx.event_with("verdict", simcore::rng::fnv1a(format!("{}{:?}", real.short(), reference).as_bytes()), || format!("real verifier: {}; reference verifier: {:?}", real.short(), reference));
     let ctxt = || format!("{:?}, {fdesc}, strategy {:?}, {} queries at {:?}", cfg, strategy, built.positions.len(), &built.positions[..built.positions.len().min(6)]);
     let sname = format!("{:?}", strategy).split(|c: char| !c.is_alphanumeric()).next().unwrap_or("").to_string();
     if let FriVerdict::Panic(p) = &real {
         ctx.violation(format!("C05/verifier-panic {}", p.signature()), format!("FRI verifier panicked at {}:{}: {}; {}", p.file, p.line, p.msg, ctxt()));
+        return;
+    }
+    if vpos != built.positions && same_rows && real.accepted() {
+        // the prover guessed the rows (see above): every check the verifier makes is satisfied
+        ctx.probe("accepted_because_the_prover_guessed_the_rows");
+        return;
+    }
+    if strategy == Strategy::S8ExtraCommitment {
+        // A surplus commitment as such is not forbidden by the property (for a genuinely
+        // low-degree function with its true remainder the verifier may accept), so the reference
+        // verdict - which refuses any other number of commitments - is not compared. What must
+        // hold: the late commitment does not help a far function, because the positions depend
+        // on it.
+        // The positions are drawn after the surplus commitment was absorbed, so the prover could
+        // only guess them: P(all q verifier rows fall into the prover's row set) = (r/R)^q.
+        // Asserted only where that is below 2^-40; otherwise counted.
+        let total_rows = if layers > 0 { domain / cfg.folding } else { domain };
+        let guess_log2 = cfg.num_queries as f64 * ((rows_p.len() as f64) / (total_rows as f64)).log2();
+        if far && real.accepted() && guess_log2 > -40.0 {
+            ctx.probe("s8_accepted_where_the_positions_can_be_guessed");
+        }
+        if far && real.accepted() && guess_log2 <= -40.0 {
+            ctx.violation(
+                "C05/far-function-accepted-with-a-commitment-made-after-the-queries",
+                format!("a remainder interpolated after the positions were known, committed to by a surplus last commitment, was accepted: the positions do not depend on every commitment the verifier uses; {}", ctxt()),
+            );
+        }
         return;
     }
     // (i) real verdict == reference verdict
